@@ -574,7 +574,7 @@ func (r *c07xRun) labelList() []string {
 }
 
 const c07ExactRule = "rapid-generated histories (2-28 ops + 1-3 final queries) on one index, M in {2,4,8,16} x efConstruction in {8,40,200} x {euclidean/float32, cosine/float32, euclidean/float16, cosine/int8}, dim 2-16, " +
-	"vectors on a small grid with zero / duplicate / scaled vectors (many exact ties); ops: VAdd, VAddBatch, VImport, VDelete (incl. re-add of deleted ids), vacuum, refine, VCompress, SaveSnapshot, restart, query. " +
+	"vectors on a small grid with zero / duplicate / scaled vectors (many exact ties); ops: VAdd, VAddBatch, VImport, VDelete (incl. the entry point, every live vector, re-add of deleted ids), vacuum, refine, VCompress, SaveSnapshot, restart, query. " +
 	"ASSERTED REGIME (narrower than '<= 2*M nodes'): live + soft-deleted-unvacuumed nodes <= min(2*M, efConstruction) at every insert and no multi-item batch through the parallel insert path - only there does the code " +
 	"(ef-bounded layer search returns every live node, selectNeighbors returns its input when it has <= 2*M candidates, reverse links are appended while a list has < 2*M entries) keep the live part of the base layer complete; " +
 	"histories outside it are executed and counted (observed-only), not asserted. Every query runs VSearchWithScores, VSearch(efSearch in {0,1,k,64}) and VSearchGraph with k in 1..live+2: each must return min(k, live) distinct live ids whose " +
